@@ -56,7 +56,7 @@ func TestC05Random(t *testing.T) {
 	st := StatsFor("C05")
 	rapid.Check(t, func(rt *rapid.T) {
 		d := rapid.IntRange(0, 8).Draw(rt, "depth")
-		c := &FlowCase{Depth: d, Siblings: chance(rt, 1, 2, "siblings"), Below: chance(rt, 1, 2, "below")}
+		c := &FlowCase{Depth: d, Siblings: chance(rt, 1, 2, "siblings"), Below: chance(rt, 1, 2, "below"), Twice: chance(rt, 1, 3, "twice")}
 		for i := 0; i < 2*d+3; i++ {
 			// bias towards "returns" so that deep Befores are reached
 			b := rapid.SampledFrom([]int{HReturns, HReturns, HReturns, HAbsent, HPanics, HExits}).Draw(rt, "beh")
@@ -75,6 +75,9 @@ func TestC05Random(t *testing.T) {
 			}
 			if d >= 6 {
 				st.Class("random:depth>=6")
+			}
+			if c.Twice {
+				st.Class("random:second-run-on-the-same-application")
 			}
 		} else {
 			st.Class("random:unclaimed-no-action")
